@@ -327,6 +327,19 @@ func fuseLeg(c *harness.Ctx, rng *rand.Rand, class string, blob []byte, idx desy
 			time.Sleep(time.Duration(n%7) * 30 * time.Microsecond)
 		}
 	}
+	// store faults: every k-th request fails (k from the PRNG), a read that met one must fail as a whole
+	faulty := rng.Intn(3) == 0
+	var faults int64
+	if faulty {
+		k := int64(2 + rng.Intn(5))
+		ms.Fault = func(op string, n int64, id desync.ChunkID) error {
+			if n%k == 0 {
+				atomic.AddInt64(&faults, 1)
+				return dsu.ErrInjected{Msg: fmt.Sprintf("get#%d", n)}
+			}
+			return nil
+		}
+	}
 	ifs := desync.NewIndexMountFS(idx, "blob", ms)
 	ff, err := dsu.MountBridge(ifs, "blob")
 	if err != nil {
@@ -393,6 +406,9 @@ func fuseLeg(c *harness.Ctx, rng *rand.Rand, class string, blob []byte, idx desy
 			return
 		}
 		if st != fuse.OK {
+			if faulty {
+				return // an error is the right answer to a store fault (short or altered data is not)
+			}
 			c.Violation("fuse-error", "read(off=%d,size=%d) of %d bytes failed with %v on a healthy store", r.off, r.size, L, st)
 			atomic.AddInt32(&nviol, 1)
 			return
@@ -452,6 +468,10 @@ func fuseLeg(c *harness.Ctx, rng *rand.Rand, class string, blob []byte, idx desy
 		ff.Release(fh)
 	}
 	c.Count("fuse_requests", int64(nreq))
+	c.Count("fuse_store_faults", atomic.LoadInt64(&faults))
+	if faulty && atomic.LoadInt64(&faults) > 0 {
+		events["store-error"] = true
+	}
 	if len(events) > 0 && nviol == 0 {
 		c.NonTrivial("fuse|%s|%s|h%d|%v", class, sz, nh, keys(events))
 	}
